@@ -874,11 +874,11 @@ class file_archive(archive):
     def keys(self):
         return KeysView(self) #XXX: show keys not dict
     keys.__doc__ = dict.keys.__doc__
-    def items(self):
-        return ItemsView(self) #XXX: show items not dict
+    def items(self): # read the file once, so the items are a consistent snapshot
+        return ItemsView(self.__asdict__()) #XXX: show items not dict
     items.__doc__ = dict.items.__doc__
-    def values(self):
-        return ValuesView(self) #XXX: show values not dict
+    def values(self): # read the file once, so the values are a consistent snapshot
+        return ValuesView(self.__asdict__()) #XXX: show values not dict
     values.__doc__ = dict.values.__doc__
     def popkeys(self, keys, *value):
         """    D.popkeys(k[,d]) -> v, remove specified keys and return corresponding values.
